@@ -1,6 +1,6 @@
 # replay of a solver counterexample against the real library (exit 1 = reproduces)
 import sys, warnings
-sys.path.insert(0, '/repo')
+sys.path.insert(0, '/tmp/sr/C02-m6')
 warnings.simplefilter('ignore')
 import numpy as np
 from svgpathtools import *
@@ -14,7 +14,7 @@ def NOT_REPRODUCED(msg=''):
 
 
 import svgpathtools.path as P
-w = '+.0'
+w = '.4E4'
 import re
 svgnum = re.compile(r"[-+]?(?:[0-9]*\.[0-9]+|[0-9]+)(?:[eE][-+]?[0-9]+)?")
 if bool(P.FLOAT_RE.fullmatch(w)) != bool(svgnum.fullmatch(w)):
